@@ -27,6 +27,13 @@ pub use will::Will;
 #[doc(hidden)]
 pub mod fuzzing;
 
+#[cfg(minimq_verif)]
+extern crate std;
+
+#[cfg(minimq_verif)]
+#[doc(hidden)]
+pub mod verif;
+
 use de::Error as DeError;
 use ser::{Error as SerError, PubError as SerPubError};
 
